@@ -383,7 +383,10 @@ class LocalStorageBackend(StorageBackend):
         live table (#45).
         """
         full_prefix = self._resolve_path(prefix)
-        if not os.path.exists(full_prefix):
+        if not os.path.isdir(full_prefix):
+            # nothing there, or a FILE of that name: no files UNDER it (the
+            # object-store backend answers [] as well; only a failing walk of
+            # an existing directory is an error)
             return []
 
         base_path = self._real_base_path()
